@@ -12,6 +12,9 @@ pub enum FixedStrError {
 }
 
 /// Fixed size string to bytes.
+///
+/// The string is stored NUL-padded, so it must not contain NUL itself;
+/// a string of exactly `MAX_LEN` bytes is stored without a terminator.
 pub fn fixed_str_to_bytes<const MAX_LEN: usize>(
     name: &str,
 ) -> Result<[u8; MAX_LEN], FixedStrError> {
@@ -19,18 +22,22 @@ pub fn fixed_str_to_bytes<const MAX_LEN: usize>(
     if bytes.len() > MAX_LEN {
         return Err(FixedStrError::ExceedMaxLengthLimit);
     }
+    // NUL is the padding byte: a string containing it could not be read back unchanged.
+    if bytes.contains(&0) {
+        return Err(FixedStrError::InvalidFormat);
+    }
     let mut buffer = [0; MAX_LEN];
     buffer[..bytes.len()].copy_from_slice(bytes);
     Ok(buffer)
 }
 
 /// Bytes to fixed size string.
+///
+/// The string ends at the first NUL, or fills the whole buffer if there is none.
 pub fn bytes_to_fixed_str<const MAX_LEN: usize>(
     bytes: &[u8; MAX_LEN],
 ) -> Result<&str, FixedStrError> {
-    let Some(end) = bytes.iter().position(|&x| x == 0) else {
-        return Err(FixedStrError::InvalidFormat);
-    };
+    let end = bytes.iter().position(|&x| x == 0).unwrap_or(MAX_LEN);
     let valid_bytes = &bytes[..end];
     Ok(std::str::from_utf8(valid_bytes)?)
 }
